@@ -676,8 +676,11 @@ func special(r *core.Run) {
 		}
 	}
 	// (b) pending time:sleep is interrupted by cancellation
-	for _, d := range []string{"30m", "59m", "1h"} {
-		kk := kase{Src: fmt.Sprintf("(time:sleep (time:parse-duration %q))", d), Why: "sleep"}
+	for _, d := range []string{"30m", "59m", "1h", "30m+deadline", "59m+deadline"} {
+		kk := kase{Src: fmt.Sprintf("(time:sleep (time:parse-duration %q))", strings.TrimSuffix(d, "+deadline")), Why: "sleep"}
+		if strings.HasSuffix(d, "+deadline") {
+			kk.Why = "sleep+deadline"
+		}
 		bad, rep := specialReplay("special:sleep-cancel", kk)
 		r.AddEvals(1)
 		r.AddTransitions(1)
@@ -770,11 +773,19 @@ func specialReplay(class string, k kase) (bool, string) {
 	case "special:sleep-cancel":
 		env := el.MustEnv(el.Opts{Stdlib: true})
 		ctx, cancel := context.WithCancel(context.Background())
+		if k.Why == "sleep+deadline" {
+			// a deadline far beyond the sleep, and an EXPLICIT cancellation while the sleep is pending
+			var c2 context.CancelFunc
+			ctx, c2 = context.WithTimeout(ctx, 10*time.Hour)
+			defer c2()
+		}
 		done := make(chan el.Outcome, 1)
 		t0 := time.Now()
 		go func() { done <- env.LoadCtx(ctx, k.Src) }()
 		time.Sleep(30 * time.Millisecond)
 		cancel()
+		// the requested sleeps are >= 30 min: returning at all within the 30 s watchdog proves that the
+		// cancellation, not the timer, ended the wait (a 60x margin; no short wall-clock oracle)
 		select {
 		case out := <-done:
 			bad := !out.IsErr || out.Cond != lisp.CondContextCancelled
